@@ -176,6 +176,29 @@ def run(chk):
         metas.append(case)
         if i < 3:
             chk.sample({"template": text, "calls": calls[:6], "observed": [repr(o) for o in (obs or [])][:6]})
+    # scale: hundreds of directories visited round-robin (every directory is returned to after all the others),
+    # so a counter table that is bounded, evicted or reset along the way shows
+    for i in range(3 if chk.tier == "quick" else 12):
+        nd = rng.choice([300, 520, 1100]) if i else 300
+        cfg = (rng.randrange(0, 5), rng.randrange(1, 4), rng.choice([0, 3]), False)
+        text = "%Count" + cfg_args(rng, cfg)
+        dirs_ = ["d%04d" % j if j % 3 else "deep/d%04d/x" % j for j in range(nd)]
+        calls = [("/vroot/big", "%s/%s.txt" % (d, nm)) for nm in ("a", "b", "c") for d in dirs_]
+        with impl.quiet_streams():
+            pat = impl.compile_template(text, None)
+        files = [impl.mkfile(r, rel) for r, rel in calls]
+        obs = []
+        for f in files:
+            try:
+                obs.append(pat.sub_elements[0].process(f))
+            except ValueError:
+                obs.append(None)
+        case = {"cfg": cfg, "template": text, "calls": "3 rounds over %d directories" % nd, "via": "direct"}
+        oracle_sequence(chk, cfg, files, obs, case)
+        stats["many_directories"] = stats.get("many_directories", []) + [nd]
+        chk.count((cfg, nd, "scale"))
+        cases.append("(%s, %s, Some %s)" % (q_cfg(cfg), q_calls([dirkey(f) for f in files]), q_list([q_out(o) for o in obs], "count_out")))
+        metas.append(case)
     mism, errs = common.run_model_cases(["Tags.Count", "Corr.CountCorr"], "count_case", "count_case_ok", cases)
     for e in errs:
         chk.proof_failures.append({"what": "coqc on generated cases (Corr.CountCorr.count_case_ok)", "log": e["output"]})
